@@ -75,6 +75,9 @@ THEOREMS = [
     "C16_mol2_bond_ids_partial",
     "C16_mol2_eight_words_refuted",
     "C16_mol2_nonvacuous",
+    "C16_radius_rule",
+    "C16_radius_default_tables",
+    "C16_radius_rule_nonvacuous",
 ]
 ALLOWED_AXIOMS: list = []
 
@@ -500,9 +503,12 @@ def fc2(v):
 # tables
 
 
-def table_correspondence(ctx, tab):
-    """show_tables (model) vs the dictionaries of /repo."""
+def table_correspondence(ctx, tab, pristine=None):
+    """show_tables (model) vs the dictionaries of /repo (the radius tables as they were at import)."""
     from pdb2pqr.ligand import NONBONDED_BY_TYPE, RADII, VALENCE_BY_ELEMENT, peoe
+
+    if pristine is not None:
+        RADII = pristine
 
     parts = dict(p.split("=", 1) for p in tab.split("|"))
     bad = []
@@ -1097,6 +1103,185 @@ def build_complexes(rng, thorough):
 
 
 # --------------------------------------------------------------------------
+# radius tables: every ordered (primary, secondary) pair, call histories, immutability of the tables
+
+RADII_SITE = "Mol2Molecule.assign_radii"
+USER_TABLE = {"C.3": 1.9, "O": 1.6, "P": 2.0, "H": 1.0, "Br": 2.05, "O.co2": 1.66}
+RADII_LIGANDS = {
+    # typed entry O.co2 (zap9 / user only), O and P and Br only outside zap9, N and S and halogens outside the user table
+    "carboxylate": (["O.co2", "C.2", "O.co2", "C.3", "H", "H", "H"], [(0, 1, "ar"), (1, 2, "ar"), (1, 3, "1"), (3, 4, "1"), (3, 5, "1"), (3, 6, "1")]),
+    "phosphate-bromide": (["P.3", "O.2", "O.3", "O.3", "O.3", "C.3", "Br", "H", "H"],
+                          [(0, 1, "2"), (0, 2, "1"), (0, 3, "1"), (0, 4, "1"), (4, 5, "1"), (5, 6, "1"), (5, 7, "1"), (5, 8, "1")]),
+    "hetero": (["C.ar", "N.ar", "C.ar", "S.3", "Cl", "F", "I", "N.4", "H", "H", "H", "H", "O.3", "H"],
+               [(0, 1, "ar"), (1, 2, "ar"), (2, 0, "ar"), (0, 3, "1"), (3, 4, "1"), (2, 5, "1"), (2, 6, "1"), (3, 7, "1"), (7, 8, "1"),
+                (7, 9, "1"), (7, 10, "1"), (1, 11, "1"), (0, 12, "1"), (12, 13, "1")]),
+}
+TABLE_NAMES = ["zap9", "bondi", "user"]
+
+
+def take_pristine():
+    """deep copies of the module-level radius tables; taken before anything in this run calls the ligand code"""
+    import copy
+
+    from pdb2pqr.ligand import RADII
+
+    return copy.deepcopy(RADII)
+
+
+def restore_tables(pristine):
+    """put the module-level tables back IN PLACE (default arguments are bound to these very objects)"""
+    from pdb2pqr.ligand import RADII
+
+    for k in list(RADII):
+        if k not in pristine:
+            del RADII[k]
+    for k, v in pristine.items():
+        if k in RADII and isinstance(RADII[k], dict):
+            if RADII[k] != v:
+                RADII[k].clear()
+                RADII[k].update(v)
+        else:
+            RADII[k] = dict(v)
+
+
+def rule_radius(t, prim, sec):
+    """the documented rule from plain dicts: primary by Sybyl type, by element, then the backup likewise"""
+    e = t.split(".")[0].upper()
+    for tab in (prim, sec):
+        for key in (t, e):
+            if key in tab:
+                return tab[key]
+    return None
+
+
+def radii_call(lig, pair, user, how):
+    """One call on a fresh molecule object with the LIVE module tables (as a caller would pass them)."""
+    from pdb2pqr.ligand import RADII
+
+    types, bonds = RADII_LIGANDS[lig]
+    m = impl_read(mol2_text(types, bonds, default_names(types)))
+    tabs = {"zap9": RADII.get("zap9"), "bondi": RADII.get("bondi"), "user": user}
+    p, s_ = tabs[pair[0]], tabs[pair[1]]
+    try:
+        if how == "default":
+            m.assign_parameters()
+        elif how == "parameters":
+            m.assign_parameters(p, s_)
+        else:
+            m.assign_radii(p, s_)
+    except KeyError:
+        return "KeyError"
+    except Exception as e:  # noqa
+        return "EXC:" + type(e).__name__
+    return [a.radius for a in m.atoms.values()]
+
+
+def run_radii_history(pristine, lig, history):
+    """history = [[primary, secondary, how], ...] in ONE process state starting from the pristine tables.
+    Returns per call: result, result of the same call from a fresh state, the rule's answer, tables that changed."""
+    from pdb2pqr.ligand import RADII
+
+    types = RADII_LIGANDS[lig][0]
+    out = []
+    fresh = []
+    for pr, se, how in history:
+        restore_tables(pristine)
+        fresh.append(radii_call(lig, (pr, se), dict(USER_TABLE), how))
+    restore_tables(pristine)
+    user = dict(USER_TABLE)
+    for k, (pr, se, how) in enumerate(history):
+        got = radii_call(lig, (pr, se), user, how)
+        ptab = {"zap9": pristine["zap9"], "bondi": pristine["bondi"], "user": USER_TABLE}
+        exp = [rule_radius(t, ptab[pr], ptab[se]) for t in types]
+        exp = "KeyError" if any(v is None for v in exp) else exp
+        changed = sorted(k_ for k_ in set(pristine) | set(RADII) if RADII.get(k_) != pristine.get(k_)) + (["user"] if user != USER_TABLE else [])
+        out.append({"call": [pr, se, how], "got": got, "fresh": fresh[k], "rule": exp, "changed": changed})
+    restore_tables(pristine)
+    return out
+
+
+def oracle_radii_history(ctx, pristine, lig, history):
+    res = run_radii_history(pristine, lig, history)
+    case = {"radii_history": history, "ligand": lig}
+    ctx.evaluated(("radii", lig, core.sha(history)), len(history) >= 1)
+    ctx.count(f"search:radii-history-len{len(history)}")
+    done = set()
+    nfail = 0
+
+    def fail(cond, txt, k):
+        nonlocal nfail
+        if cond in done:
+            return
+        done.add(cond)
+        nfail += 1
+        ctx.fail({"site": RADII_SITE, "condition": cond}, txt, dict(case, failing_call=k))
+
+    for k, r in enumerate(res):
+        pr, se, how = r["call"]
+        if r["fresh"] != r["rule"]:
+            bad = "raises/returns" if isinstance(r["fresh"], str) or isinstance(r["rule"], str) else \
+                [(t, a, b) for t, a, b in zip(RADII_LIGANDS[lig][0], r["fresh"], r["rule"]) if a != b][:3]
+            fail("radius-not-from-selected-tables", f"{lig}: {how}(primary={pr}, secondary={se}) from a fresh state: (type, got, rule) {bad}", k)
+        if r["changed"]:
+            fail("mutates-module-table", f"{lig}: after {how}(primary={pr}, secondary={se}) the table(s) {r['changed']} differ from their state at import", k)
+        if r["got"] != r["fresh"]:
+            bad = "raises/returns" if isinstance(r["got"], str) or isinstance(r["fresh"], str) else \
+                [(t, a, b) for t, a, b in zip(RADII_LIGANDS[lig][0], r["got"], r["fresh"]) if a != b][:3]
+            fail("depends-on-earlier-calls", f"{lig}: call {k + 1} of {[c[:2] for c in history]}: (type, in this history, from a fresh state) {bad}", k)
+    return res, nfail
+
+
+def radii_histories(rng, thorough):
+    pairs = [(a, b) for a in TABLE_NAMES for b in TABLE_NAMES]
+    H = []
+    for lig in RADII_LIGANDS:
+        for a in pairs:
+            H.append((lig, [[a[0], a[1], "radii"]]))
+            H.append((lig, [["zap9", "bondi", "default"], [a[0], a[1], "parameters" if a[0] != "user" or a[1] != "user" else "radii"]]))
+            for b in rng.sample([q for q in pairs if q != a], 8 if thorough else 2):
+                H.append((lig, [[a[0], a[1], "radii"], [b[0], b[1], "radii"], [a[0], a[1], "radii"]]))
+    return H
+
+
+def coq_table(d):
+    return core.coq_list([f"({core.coq_string(k)}, {core.coq_Z(round(v * 100))})" for k, v in d.items()])
+
+
+def radii_level(ctx, rng, pristine, disagree):
+    """(1) search: every ordered pair of tables, histories, immutability; (2) tie of Model.Peoe.radius_from."""
+    ok = True
+    for k, v in list(pristine.get("zap9", {}).items()) + list(pristine.get("bondi", {}).items()) + list(USER_TABLE.items()):
+        if abs(v * 100 - round(v * 100)) > 1e-9:
+            ctx.broke("correspondence-broken", "radius tables are not multiples of 0.01 A (model unit)", f"{k}: {v}")
+            return False
+    allres = []
+    for lig, hist in radii_histories(rng, ctx.thorough):
+        res, _ = oracle_radii_history(ctx, pristine, lig, hist)
+        allres.append((lig, hist, res))
+    # model tie: radius_from on the pristine tables for every pair and ligand vs the code's fresh-state result
+    ptab = {"zap9": pristine["zap9"], "bondi": pristine["bondi"], "user": USER_TABLE}
+    singles = [(lig, hist[0], res[0]) for lig, hist, res in allres if len(hist) == 1]
+    terms = [f"run_radii {coq_table(ptab[c[0]])} {coq_table(ptab[c[1]])} {core.coq_list([core.coq_string(t) for t in RADII_LIGANDS[lig][0]])}"
+             for lig, c, _r in singles]
+    try:
+        out = core.run_cases("C16rad", HEADER, terms, chunk=max(8, len(terms) // 4 + 1))
+    except core.CoqEvalError as e:
+        ctx.broke("correspondence-broken", "model evaluation failed (Model/Peoe.v radius_from)", str(e))
+        return False
+    for (lig, c, r), s_ in zip(singles, out):
+        ctx.cov["correspondence_cases"] += 1
+        ctx.count("corr:radius-table-pair")
+        vals = [None if v == "EXC" else int(v) for v in s_.split(";")]
+        mod = "KeyError" if any(v is None for v in vals) else vals
+        imp = r["fresh"] if isinstance(r["fresh"], str) else [r100(v) for v in r["fresh"]]
+        if mod != imp:
+            ok = False
+            disagree("Model.Peoe.radius_from (primary, secondary) vs Mol2Molecule.assign_radii",
+                     f"{lig} primary={c[0]} secondary={c[1]}: code {imp} model(1/100) {mod}", {"radii_history": [c], "ligand": lig})
+    return ok
+
+
+# --------------------------------------------------------------------------
 # TEXT level: the MOL2 text itself -> Mol2Molecule.read  vs  Model.Mol2Read.mol_of_string
 # (section detection, record fields, bond-type words, atom ids -> positions, what raises),
 # and text -> charges end to end (real assign_parameters on the text vs model pipeline).
@@ -1611,7 +1796,10 @@ def run(ctx):
         "through main_driver; distinct by PDB text. Loop cases: residue lists (ligand, waters, hetero groups sharing atom "
         "names, protein residues, force-field hits on any of them) through the source text of the ligand loop, judged by "
         "the generator's own labelling of the ligand residue; non-trivial when unambiguous, >= 2 residues, one the ligand. "
-        "Text cases: the stored MOL2 files verbatim and re-rendered from an independent reading (separators: blanks, tabs, "
+        "Radius-table cases: assign_radii / assign_parameters with every ordered pair of (zap9, bondi, a user table) as (primary, secondary) on three "
+        "ligands (carboxylate with O.co2; phosphate + Br; N/S/halogen heterocycle), alone, after a default call, and as [A, B, A]; after every call the "
+        "module tables must equal their copies taken at import, the result must equal the same call from a fresh state and the rule; distinct by "
+        "(ligand, history). Text cases: the stored MOL2 files verbatim and re-rendered from an independent reading (separators: blanks, tabs, "
         "\\x0b \\x0c \\x1c-\\x1f; column widths; blank lines between records; comment/other sections before ATOM; with/without "
         "SUBSTRUCTURE and junk after it; LF/CRLF/CR), generated molecules in such spellings (arbitrary atom/bond ids, status "
         "fields, type words in any case, 8-field ATOM records), and a malformed stream (28 kinds: missing/extra fields, "
@@ -1619,6 +1807,7 @@ def run(ctx):
         "missing/reordered/embedded markers); read-back judged on the property-relevant fields (atom order, name, type, "
         "residue name, bonds as unordered typed pairs); non-trivial with >= 2 atoms and >= 1 bond; distinct by text."
     )
+    pristine = take_pristine()  # before anything below touches the ligand code
     ok = core.proof_stage(ctx, "C16", THEOREMS, ALLOWED_AXIOMS)
     broken = not ok
 
@@ -1702,7 +1891,7 @@ def run(ctx):
             ctx.broke("correspondence-broken", what, detail, case)
 
     if res_F is not None:
-        if not table_correspondence(ctx, res_tab):
+        if not table_correspondence(ctx, res_tab, pristine):
             broken = True
         exact = 0
         for c, sF, sfm in zip(cases, res_F, res_fm):
@@ -1769,6 +1958,10 @@ def run(ctx):
                 if it != sT:
                     disagree("Model.Peoe.transfer_loop/written vs the ligand loop of main.non_trivial (source text executed)", f"impl={it} model={sT}", {"transfer": {k_: v_ for k_, v_ in c.items() if k_ != "impl_out"}})
 
+    # ---------------- radius tables: all (primary, secondary) pairs, histories --
+    if not radii_level(ctx, rng, pristine, disagree):
+        broken = True
+
     # ---------------- the MOL2 text itself ------------------------------------
     if not text_level(ctx, rng, cases, disagree):
         broken = True
@@ -1833,6 +2026,8 @@ def run(ctx):
         "complex oracle: baseline run without --ligand provides the force-field parameters of non-ligand atoms",
         "modelled, not verified: Mol2Molecule.read / parse_atoms / parse_bonds (hand model Model/Mol2Read.v; tie = MOL2 texts through the real reader "
         "opened as main.py opens the file, compared field by field or by exception class, and text -> charges end to end)",
+        "radius oracle: the rule (primary by type, by upper-cased element, then the backup likewise) evaluated by the harness on deep copies of "
+        "pdb2pqr.ligand.RADII taken before any ligand code runs, and on a small user table; 'fresh state' = the module tables restored in place from those copies",
         "text oracle: the generator's molecule (or an independent conventional-layout reading of the stored files) is the ground truth of a text",
         "which of the two modelled guards before words[8] applies (`len(line) > 8` as coded / `len(words) > 8` repaired) is probed on one 8-field record",
     ]
@@ -1873,6 +2068,15 @@ def replay(ctx, data):
         oracle_transfer(ctx, case["transfer"], out)
         after = len(ctx.failures) + sum(ctx.known_hits.values())
         print("replay:", "FAILS" if after > before else "passes", "| loop output (id=parameters ... | missing ids):", out)
+        return 1 if after > before else 0
+    if "radii_history" in case:
+        pristine = take_pristine()
+        before = len(ctx.failures) + sum(ctx.known_hits.values())
+        res, _ = oracle_radii_history(ctx, pristine, case["ligand"], [list(c) if len(c) == 3 else list(c) + ["radii"] for c in case["radii_history"]])
+        after = len(ctx.failures) + sum(ctx.known_hits.values())
+        for r in res:
+            print("  call", r["call"], "->", r["got"], "| fresh state:", r["fresh"], "| rule:", r["rule"], "| tables changed:", r["changed"])
+        print("replay:", "FAILS" if after > before else "passes")
         return 1 if after > before else 0
     if "text" in case and "expected" in case:
         exp = ("OK", [tuple(a) for a in case["expected"][0]], [tuple(b) for b in case["expected"][1]])
